@@ -43,6 +43,16 @@ Proof. vm_compute. reflexivity. Qed.
 Example C06_pin_range_pin : hex (range_hash_from_chunks [map N.of_nat (seq 1 32); map N.of_nat (seq 2 32)]) = [49; 97; 97; 55; 97; 50; 52; 48; 100; 48; 57; 54; 99; 52; 101; 52; 99; 50; 54; 100; 102; 53; 97; 102; 49; 99; 56; 97; 100; 54; 100; 51; 57; 99; 102; 48; 51; 50; 53; 100; 100; 51; 53; 100; 56; 56; 55; 97; 54; 56; 51; 102; 49; 57; 50; 53; 48; 97; 55; 49; 55; 54; 49; 99].
 Proof. vm_compute. reflexivity. Qed.
 
+(* pinned aggregate: 12 chunks none of which triggers the hash cut, so the tree shape is decided by the
+   fan-out bound alone (a parent is forced after 9 children); value printed by the real crates *)
+Definition pin_nodes : list node := map (fun i => (repeat (2 * N.of_nat i + 1) 32%nat, 100 + N.of_nat i)) (seq 0 12).
+Example C06_pin_cas_12_forced_fanout :
+  option_map hex (cas_node_hash compute_internal_node_hash pin_nodes) = Some [57; 50; 102; 48; 97; 99; 53; 100; 50; 54; 101; 51; 99; 53; 57; 99; 49; 48; 51; 98; 57; 99; 98; 54; 49; 48; 102; 52; 102; 52; 99; 57; 57; 54; 54; 54; 51; 102; 54; 54; 101; 51; 54; 101; 97; 97; 49; 52; 49; 51; 48; 50; 100; 100; 54; 101; 97; 55; 101; 53; 57; 98; 98; 97].
+Proof. vm_compute. reflexivity. Qed.
+Example C06_pin_file_12 :
+  option_map hex (file_node_hash pin_nodes (map N.of_nat (seq 0 32))) = Some [56; 101; 50; 55; 50; 57; 48; 56; 57; 99; 55; 57; 98; 98; 54; 97; 50; 56; 56; 98; 49; 56; 98; 49; 53; 48; 102; 52; 52; 99; 55; 102; 50; 49; 54; 52; 50; 57; 57; 51; 100; 98; 100; 101; 49; 49; 53; 49; 98; 98; 50; 48; 101; 99; 50; 57; 48; 101; 49; 100; 97; 49; 100; 54].
+Proof. vm_compute. reflexivity. Qed.
+
 (* non-vacuity of the streaming theorem's hypothesis: a short-writing script *)
 Example C06_streaming_nonvacuous : exists hd acc, hashed_write false [([1; 2; 3], Some 1); ([4], None); ([5; 6], Some 2)] [] [] = (hd, acc) /\ acc = [1; 5; 6].
 Proof. eexists. eexists. split; reflexivity. Qed.
